@@ -3,8 +3,7 @@ from ._common import STD_TRUST
 PROP = dict(
     level='proof',
     regen=['crctable', 'consts', 'integconsts', 'decapiconsts'],
-    theorems=['Fit.C07.C07_decode_from_clean', 'Fit.C07.C07_witness_leak_discard', 'Fit.C07.C07_witness_leak_reset',
-              'Fit.C07.C07_witness_peek_past', 'Fit.C07.C07_witness_leftover'],
+    theorems=['Fit.C07.C07_decode_from_clean', 'Fit.C07.C07_witness_peek_past'],
     families=[dict(name='dechist', prop=True), dict(name='decapi')],
     trusted_base=STD_TRUST + [],
     assumptions=[],
